@@ -40,11 +40,66 @@ def _wrap_tables(tree):
     return out
 
 
+def _func(tree, name):
+    for node in ast.walk(tree):
+        if isinstance(node, ast.FunctionDef) and node.name == name:
+            return node
+    raise AnchorError("function %s not found" % name)
+
+
+def _assign_value(func, target):
+    """the value expression of the (unique) plain assignment `target = ...` inside func"""
+    found = [n.value for n in ast.walk(func) if isinstance(n, ast.Assign) and len(n.targets) == 1
+             and isinstance(n.targets[0], ast.Name) and n.targets[0].id == target]
+    if len(found) != 1:
+        raise AnchorError("expected exactly one assignment to %s in %s, found %d" % (target, func.name, len(found)))
+    return found[0]
+
+
+def _bigm_factor(pr):
+    """priceable(): INF = max([instance.budget_limit] + [c.cost for c in C]) * <int>"""
+    v = _assign_value(_func(pr, "priceable"), "INF")
+    if not (isinstance(v, ast.BinOp) and isinstance(v.op, ast.Mult) and isinstance(v.right, ast.Constant)
+            and isinstance(v.right.value, int) and isinstance(v.left, ast.Call)
+            and isinstance(v.left.func, ast.Name) and v.left.func.id == "max"):
+        raise AnchorError("big-M constant of priceable() no longer has the shape max(...) * <int>: " + ast.dump(v)[:200])
+    src = ast.unparse(v.left)
+    if "budget_limit" not in src or ".cost" not in src:
+        raise AnchorError("big-M constant of priceable() no longer dominates budget and costs: " + src)
+    return v.right.value
+
+
+def _increase_defaults(ex):
+    """exhaustion_by_budget_increase(): budget_step = instance.budget_limit * frac(1, N);
+    budget_bound = instance.budget_limit * (profile.num_ballots() + K)"""
+    f = _func(ex, "exhaustion_by_budget_increase")
+    vals = {}
+    for n in ast.walk(f):
+        if isinstance(n, ast.Assign) and len(n.targets) == 1 and isinstance(n.targets[0], ast.Name) \
+                and n.targets[0].id in ("budget_step", "budget_bound"):
+            vals.setdefault(n.targets[0].id, []).append(n.value)
+    try:
+        (st,) = vals["budget_step"]
+        (bd,) = vals["budget_bound"]
+        assert isinstance(st, ast.BinOp) and isinstance(st.op, ast.Mult) and ast.unparse(st.left) == "instance.budget_limit"
+        assert isinstance(st.right, ast.Call) and ast.unparse(st.right.func) == "frac" and len(st.right.args) == 2
+        num, den = (a.value for a in st.right.args)
+        assert isinstance(bd, ast.BinOp) and isinstance(bd.op, ast.Mult) and ast.unparse(bd.left) == "instance.budget_limit"
+        r = bd.right
+        assert isinstance(r, ast.BinOp) and isinstance(r.op, ast.Add) and ast.unparse(r.left) == "profile.num_ballots()"
+        k = r.right.value
+        return int(num), int(den), int(k)
+    except Exception as e:
+        raise AnchorError("defaults of exhaustion_by_budget_increase no longer have the expected shape: %r" % (e,))
+
+
 def extract(repo):
     facts = {}
     pr = _parse(repo, "pabutools/analysis/priceability.py")
     facts["CHECK_ROUND_PRECISION"] = int(_const(pr, "CHECK_ROUND_PRECISION"))
     facts["ROUND_PRECISION"] = int(_const(pr, "ROUND_PRECISION"))
+    facts["BIGM_FACTOR"] = _bigm_factor(pr)
+    facts["INCREASE_DEFAULTS"] = _increase_defaults(_parse(repo, "pabutools/rules/exhaustion.py"))
     wraps = {}
     for rel in ["pabutools/election/instance.py", "pabutools/rules/budgetallocation.py",
                 "pabutools/election/ballot/approvalballot.py", "pabutools/election/ballot/cardinalballot.py",
@@ -64,6 +119,13 @@ def render(facts) -> str:
              "From Coq Require Import List String ZArith.", "Import ListNotations.", "Open Scope string_scope.", ""]
     lines.append("Definition CHECK_ROUND_PRECISION : Z := %d%%Z." % facts["CHECK_ROUND_PRECISION"])
     lines.append("Definition ROUND_PRECISION : Z := %d%%Z." % facts["ROUND_PRECISION"])
+    lines.append("(* priceable(): INF = max(budget, costs) * BIGM_FACTOR *)")
+    lines.append("Definition ANCHOR_BIGM_FACTOR : Z := %d%%Z." % facts["BIGM_FACTOR"])
+    n, d, k = facts["INCREASE_DEFAULTS"]
+    lines.append("(* exhaustion_by_budget_increase defaults: step = B * (num/den); bound = B * (num_ballots + k) *)")
+    lines.append("Definition INCREASE_STEP_NUM : Z := %d%%Z." % n)
+    lines.append("Definition INCREASE_STEP_DEN : positive := %d%%positive." % d)
+    lines.append("Definition INCREASE_BOUND_PLUS : Z := %d%%Z." % k)
     for cls in sorted(facts["wraps"]):
         names = sorted(facts["wraps"][cls])
         lines.append("Definition wrapped_%s : list string := [%s]." % (
